@@ -6,6 +6,8 @@ from .common import *
 from .fmtout import strip_mut, MB, MV
 from .queuing import rule_builder_frame, _field_value
 from .sinks import is_whole_param
+from .. import terms as _tm
+_tm.KINDS.add('item')
 
 SC = 'cadence::client::StatsdClient'
 SCB = 'cadence::client::StatsdClientBuilder'
@@ -72,12 +74,12 @@ def rule_try_send(fm, rep, rid='R1'):
     client = peel(ct[2][0])
     okc = any(y[0] == 'payload' and y[2] == 'Success' for y in walk(client))
     rep.ob(rid, 'try_send/uses-the-builders-client', okc, b.where(sb), 'sent through the client stored in the builder')
-    ok_e, err_e, _ = outcomes(T, sb)
-    if not ok_e or not err_e:
+    rc = result_cases(T, sb)
+    r_ok, r_err = rc['ok'], rc['err']
+    if not r_ok or not r_err:
         rep.bad(rid, 'try_send/send-result-examined', b.where(sb), 'the result of send_metric is not examined')
         return
-    r_ok = ret_terms(T, ok_e)
-    r_err = ret_terms(T, err_e)
+    # the error-state return is unconditional w.r.t. send_metric: allowed in '?'
     g1 = r_ok == {('adt', 'core::result::Result', 'Ok', (('0', metric),))}
     rep.ob(rid, 'try_send/ok-only-after-accepted', g1, b.where(sb), 'Ok(metric) is returned only on the Ok edge of send_metric, with the very metric sent' if g1 else 'after a successful send returns %s' % [fmt(x)[:100] for x in r_ok])
     from .writer import _is_err_of
@@ -103,16 +105,13 @@ def rule_send_metric(fm, rep, rid='R2'):
         return
     e = emits[0]
     ct = norm(T.call_term(e))
-    okr = self_field_name(ct[2][0]) == 'sink'
+    okr = self_field_name(ct[2][0]) == client_field(cad, 'sink')
     okt = term_callee_is(peel(ct[2][1]), '<M as cadence::types::Metric>::as_metric_str') and peel(peel(ct[2][1])[2][0]) == ('param', 2)
     rep.ob(rid, 'send_metric/emits-the-metric-text', okr and okt, b.where(e), 'self.sink.emit(metric.as_metric_str())' if okr and okt else 'emit(%s, %s)' % (fmt(ct[2][0])[:60], fmt(ct[2][1])[:80]))
-    ok_e, err_e, _ = outcomes(T, e)
     from .writer import _is_err_of
-    if ok_e and err_e:
-        r_ok, r_err = ret_terms(T, ok_e), ret_terms(T, err_e)
-        g = all(r[0] == 'adt' and r[2] == 'Ok' for r in r_ok) and bool(r_ok) and all(_is_err_of(r, ct) for r in r_err) and bool(r_err)
-    else:
-        g = False
+    rc = result_cases(T, e)
+    r_ok, r_err = rc['ok'], rc['err']
+    g = not rc['?'] and all(r[0] == 'adt' and r[2] == 'Ok' for r in r_ok) and bool(r_ok) and all(_is_err_of(r, ct) for r in r_err) and bool(r_err)
     rep.ob(rid, 'send_metric/result-tells-the-truth', g, b.where(e), 'Ok(()) iff the sink accepted; Err(MetricError::from(e)) with the sink\'s own error otherwise' if g else 'the emit result is not propagated faithfully (swallowed or replaced)')
     # who may call emit on the client's sink
     others = []
@@ -182,6 +181,8 @@ def rule_error_type(fm, rep, rid='R3'):
 
 
 def rule_quiet_send(fm, rep, rid='R4'):
+    """send(): on every path the error handler is invoked exactly once iff the send failed (rejected value or Err from
+    try_send), with that very error; never on success.  No assumption on how send() is written."""
     cad = fm.cad
     b = one(rep, rid, 'MetricBuilder::send', cad.method(MB, 'send'))
     ce = [x for x in cad.all_bodies if x.impl_trait == BACKEND and (x.impl_self or '') == SC and x.name == 'consume_error']
@@ -190,56 +191,64 @@ def rule_quiet_send(fm, rep, rid='R4'):
         return
     rep.analysed(b)
     rep.analysed(cb)
-    # consume_error = exactly one call through self.errors with the parameter
     Tc = Terms(cb)
     hc = [bi for bi, t in cb.calls() if callee_is(t, 'core::ops::function::Fn>::call') and not cb.blocks[bi]['cleanup']]
     okc = len(hc) == 1 and count_events(cb, lambda x: x in hc) == {1}
     if okc:
         ct = norm(Tc.call_term(hc[0]))
-        okc = self_field_name(ct[2][0]) == 'errors' and ct[2][1] == ('tuple', (('param', 2),))
-    rep.ob(rid, 'consume_error/calls-handler-once', okc, cb.where(), 'consume_error(e) = (self.errors)(e), once' if okc else 'consume_error does not invoke the configured handler exactly once with its argument')
-    T = Terms(b)
-    if b.blocks[0]['term']['k'] != 'switch':
-        rep.unknown(rid, 'send/shape', b.where(), 'send does not start with a match on the builder state')
-        return
-    dt, edges = T.switch_facts(0)
-    succ = [s for s, labs in edges.items() if ('variant', 'Success') in labs]
-    err = [s for s, labs in edges.items() if ('variant', 'Error') in labs]
-    hs = [bi for bi, t in b.calls() if t.get('resolved') == cb.path and not b.blocks[bi]['cleanup']]
-    tss = [bi for bi, t in b.calls() if t.get('resolved') == fm.try_send.path and not b.blocks[bi]['cleanup']]
+        okc = self_field_name(ct[2][0]) == client_field(cad, 'errors') and ct[2][1] == ('tuple', (('param', 2),))
+    rep.ob(rid, 'consume_error/calls-handler-once', okc, cb.where(), 'consume_error(e) = (self.<handler>)(e), once' if okc else 'consume_error does not invoke the configured handler exactly once with its argument')
+    # send with private helpers inlined, try_send and consume_error kept as events
+    ib = inl(cad, b, never=lambda x: x.path in (fm.try_send.path, cb.path))
+    T = Terms(ib)
+    hs = [bi for bi, t in ib.calls() if t.get('resolved') == cb.path and not ib.blocks[bi]['cleanup']]
+    tss = [bi for bi, t in ib.calls() if t.get('resolved') == fm.try_send.path and not ib.blocks[bi]['cleanup']]
     rep.sites(len(hs) + len(tss))
-    # error state: handler exactly once with that error, no try_send
-    c1 = count_events(b, lambda x: x in hs, starts=err)
-    c2 = count_events(b, lambda x: x in tss, starts=err)
     bad = []
-    if c1 != {1} or c2 != {0}:
-        bad.append('rejected value: handler called %s times, try_send %s times' % (sorted(c1), sorted(c2)))
-    for h in hs:
-        if h in reach(b, err) and h not in reach(b, succ):
-            ct = norm(T.call_term(h))
-            if ct[2][1] != field_of(('payload', ('field', ('param', 1), 'repr'), 'Error'), '0', 0):
-                bad.append('handler gets %s instead of the stored error' % fmt(ct[2][1]))
-    c3 = count_events(b, lambda x: x in tss, starts=succ)
-    if c3 != {1}:
-        bad.append('valid builder: try_send called %s times' % sorted(c3))
-    elif tss:
-        paths = outcome_paths(T, tss[0], {'h': set(hs)})
+    stored_err = field_of(('payload', ('field', ('param', 1), 'repr'), 'Error'), '0', 0)
+    if len(tss) > 1:
+        bad.append('try_send is called from %d sites' % len(tss))
+    if tss:
+        ts = tss[0]
+        tct = norm(T.call_term(ts))
+        paths = outcome_paths(T, ts, {'h': set(hs)}, starts=[0])
+        # paths from the entry: those that never reach try_send carry fact '?'
         for k, fact, counts in paths:
             c = dict(counts)['h']
             if fact == 'ok' and c != 0:
                 bad.append('handler invoked on success')
             if fact == 'err' and c != 1:
-                bad.append('handler invoked %d times on failure' % c)
-            if fact == '?':
-                bad.append('a path ignores the result of try_send')
-        tct = norm(T.call_term(tss[0]))
+                bad.append('handler invoked %d times after try_send failed' % c)
+        cts = count_events(ib, lambda x: x == ts)
+        if 2 in cts:
+            bad.append('try_send can run twice')
+        # paths that skip try_send must be the rejected-value state and report it once
+        no_ts = outcome_paths(T, ts, {'h': set(hs), 'ts': {ts}}, starts=[0])
+        for k, fact, counts in no_ts:
+            c = dict(counts)
+            if c['ts'] == 0 and c['h'] != 1:
+                bad.append('a path neither sends nor reports (handler called %d times)' % c['h'])
+            if c['ts'] == 1 and fact == '?' and c['h'] != 0:
+                bad.append('handler invoked without examining the result of try_send')
         for h in hs:
-            if h in reach(b, succ):
-                ct = norm(T.call_term(h))
-                if ct[2][1] != field_of(('payload', tct, 'Err'), '0', 0):
-                    bad.append('handler gets %s instead of the error returned by try_send' % fmt(ct[2][1])[:80])
+            hct = norm(T.call_term(h))
+            arg = hct[2][1]
+            after_ts = h in reach(ib, ib.succs(ts, False))
+            if after_ts and arg == field_of(('payload', tct, 'Err'), '0', 0):
+                continue
+            if not after_ts and arg == stored_err:
+                gs = guards_of(T, h) or []
+                if any(norm(dt)[0] == 'discr' and ('variant', 'Error') in labels for dt, labels, _ in gs):
+                    continue
+                bad.append('the stored error is reported without the builder being in the rejected state')
+                continue
+            if after_ts and arg == stored_err:
+                bad.append('after try_send the handler gets the stored error instead of the returned one')
+                continue
+            bad.append('handler gets %s' % fmt(arg)[:80])
+    else:
+        bad.append('send() never calls try_send')
     rep.ob(rid, 'send/handler-exactly-once-on-failure', not bad, b.where(), 'quiet send: handler once with the same error on any failure, never on success' if not bad else '; '.join(sorted(set(bad))))
-    # no panic primitive in send / consume_error / try_send / send_metric
     pan = []
     for x in (b, cb, fm.try_send):
         for bi, t in x.calls():
@@ -334,75 +343,115 @@ def rule_client_immutable(fm, rep, rid='R7'):
 FMT_CTOR = 'cadence::builder::MetricFormatter::'
 
 
+VIEW_CALLS = ('::as_deref', '::as_str', '::as_ref', '::as_slice', '::iter', 'IntoIterator>::into_iter', 'Deref>::deref', '::as_mut',
+              '::borrow', '::as_bytes')
+
+
+def strip_views(t):
+    """peel references and order/identity preserving view calls: `x.as_deref()`, `&x`, `x.iter()`, `x.as_str()` ..."""
+    while True:
+        t = peel(t)
+        if t[0] == 'call' and isinstance(t[1], str) and len(t[2]) == 1 and any(t[1].endswith(s) for s in VIEW_CALLS):
+            t = t[2][0]
+            continue
+        if t[0] == 'load':
+            t = t[1]
+            continue
+        return t
+
+
+def mentions_client_field(cad, t, role, depth=0):
+    """Does term t (an argument built inside a *_with_tags body) derive from the client's field of that role?
+    Local helper calls taking only &self are expanded through their return term."""
+    from .. import symb
+    fld = client_field(cad, role)
+    for y in walk(t):
+        if y[0] == 'field' and y[2] == fld and peel(y[1]) == ('param', 1):
+            return True
+        if depth < 2 and y[0] == 'call' and isinstance(y[1], str) and len(y[2]) == 1 and peel(y[2][0]) == ('param', 1):
+            bb = symb._body(y[1])
+            if bb is not None and bb.impl_self and type_head(bb.impl_self) == SC:
+                if mentions_client_field(cad, symb.body_ret(bb), role, depth + 1):
+                    return True
+    return False
+
+
+def builder_chain(cad, fm, b):
+    """For a *_with_tags body: (value-conversion call term, from_fmt term, [(callee path, extra args)] wrappers) of the Ok arm,
+    with private StatsdClient helpers that return a MetricBuilder inlined."""
+    ib = inl(cad, b, only=lambda x: x.impl_self and type_head(x.impl_self) == SC and x.impl_trait is None and type_head(x.locals[0]) == MB)
+    T = Terms(ib)
+    return ib, T
+
+
 def rule_decoration(fm, rep, rid='R1', kinds=True):
+    from .. import symb
     cad = fm.cad
     if kinds and not fm.need_roles(rep, ('prefix', 'key', 'val', 'type')):
         return
     n = 0
+    tag_callees, cid_callees, tag_args = set(), set(), []
     for tr, meth, plain, kind, mty, vtr, b in tagged_bodies(cad):
         if b is None:
             rep.anchor_lost(rid, 'impl %s for StatsdClient' % tr.rsplit('::', 1)[-1])
             continue
         n += 1
         rep.analysed(b)
-        T = Terms(b)
-        tv = [bi for bi, t in b.calls() if t.get('callee') == vtr + '::try_to_value' and not b.blocks[bi]['cleanup']]
+        ib, T = builder_chain(cad, fm, b)
+        tv = [bi for bi, t in ib.calls() if t.get('callee') == vtr + '::try_to_value' and not ib.blocks[bi]['cleanup']]
         if len(tv) != 1:
             continue
-        ok_e, err_e, _ = outcomes(T, tv[0])
         vct = norm(T.call_term(tv[0]))
-        rts = ret_terms(T, ok_e) if ok_e else set()
+        rc = result_cases(T, tv[0])
+        rts = rc['ok']
         if len(rts) != 1:
             rep.bad(rid, '%s/ok-arm' % meth, b.where(), 'the Ok arm returns %d shapes' % len(rts))
             continue
         r = list(rts)[0]
         wrappers = []
         x = r
-        while x[0] == 'call' and isinstance(x[1], str) and x[1].startswith('cadence::builder::MetricBuilder::') and not x[1].endswith('::from_fmt'):
-            wrappers.append((x[1].rsplit('::', 1)[-1], x[2][1:]))
+        while x[0] == 'call' and isinstance(x[1], str) and x[1].startswith('cadence::builder::MetricBuilder::') and not x[1].endswith('::from_fmt') and x[2]:
+            wrappers.append((x[1], x[2][1:]))
             x = x[2][0]
         rep.sites()
         base_ok = term_callee_is(x, 'cadence::builder::MetricBuilder::from_fmt') and peel(x[2][1]) == ('param', 1)
-        names = sorted(w[0] for w in wrappers)
-        okw = names == ['with_container_id_opt', 'with_tags']
-        okargs = True
-        for nm, args in wrappers:
-            if nm == 'with_tags':
-                a = args[0]
-                okargs = okargs and term_callee_is(a, 'cadence::client::StatsdClient::tags') and peel(a[2][0]) == ('param', 1)
-            elif nm == 'with_container_id_opt':
-                a = args[0]
-                okargs = okargs and term_callee_is(a, 'core::option::Option::as_deref') and self_field_name(a[2][0]) == 'container_id'
-        ok = base_ok and okw and okargs
+        tags_w = [w for w in wrappers if any(mentions_client_field(cad, a, 'tags') for a in w[1])]
+        cid_w = [w for w in wrappers if any(mentions_client_field(cad, a, 'container_id') for a in w[1])]
+        other = [w for w in wrappers if w not in tags_w and w not in cid_w]
+        ok = base_ok and len(tags_w) == 1 and len(cid_w) == 1 and not other and tags_w[0] != cid_w[0]
+        why = []
+        if not base_ok:
+            why.append('the builder is not created by from_fmt(formatter, self)')
+        if len(tags_w) != 1:
+            why.append('the client default tags are applied %d times' % len(tags_w))
+        if len(cid_w) != 1:
+            why.append('the client default container id is applied %d times' % len(cid_w))
+        if other:
+            why.append('extra decoration %s' % [w[0].rsplit('::', 1)[-1] for w in other])
         rep.ob(rid, '%s/default-tags-and-container-id-applied' % meth, ok, b.where(),
-               'builder = from_fmt(..).with_tags(self.tags()).with_container_id_opt(self.container_id)' if ok else
-               '%s applies %s to the new builder: default tags and/or default container id are missing for this kind' % (meth, names))
+               'new builder gets the client tags (via %s) and the client container id (via %s), each once' % (
+                   tags_w[0][0].rsplit('::', 1)[-1], cid_w[0][0].rsplit('::', 1)[-1]) if ok else
+               '%s: %s - default tags and/or default container id are missing or duplicated for this kind' % (meth, '; '.join(why)))
+        if ok:
+            tag_callees.add(tags_w[0][0])
+            cid_callees.add(cid_w[0][0])
+            tag_args.append((b, tags_w[0][1]))
         if kinds and base_ok:
             f = x[2][0]
-            okk = f[0] == 'call' and f[1] == FMT_CTOR + kind.lower()
-            oka = okk and self_field_name(f[2][0]) == 'prefix' and peel(f[2][1]) == ('param', 2) and \
-                f[2][2] == field_of(('payload', vct, 'Ok'), '0', 0)
+            agg = symb.apply(('fn', f[1]), f[2]) if f[0] == 'call' and isinstance(f[1], str) else f
+            okk = agg[0] == 'adt' and agg[1] == fm.F
+            if okk:
+                fs = dict(agg[3])
+                tvv = fs.get(fm.roles['type'])
+                okk = tvv is not None and tvv[0] == 'adt' and tvv[2] == kind and \
+                    self_field_name(fs.get(fm.roles['prefix'])) == client_field(cad, 'prefix') and \
+                    peel(fs.get(fm.roles['key'])) == ('param', 2) and fs.get(fm.roles['val']) == field_of(('payload', vct, 'Ok'), '0', 0)
             okt = mty in b.locals[0]
-            rep.ob('R4', '%s/kind-wiring' % meth, bool(okk and oka and okt), b.where(),
-                   '%s -> %s formatter(self.prefix, key, converted value) -> MetricBuilder<%s>' % (meth, kind, kind) if okk and oka and okt else
-                   '%s builds %s (expected the %s formatter with prefix, key, value)' % (meth, fmt(f)[:100], kind))
+            rep.ob('R4', '%s/kind-wiring' % meth, bool(okk and okt), b.where(),
+                   '%s -> formatter{type: %s, prefix: self.prefix, key, converted value} -> MetricBuilder<%s>' % (meth, kind, kind) if okk and okt else
+                   '%s builds %s (expected a %s formatter of client prefix, key, value)' % (meth, fmt(agg)[:120], kind))
     rep.floor(rid, 'tagged entry points', n, 7)
-    if kinds:
-        # formatter constructors carry the matching MetricType constant
-        for tr, meth, plain, kind, mty, vtr, b in tagged_bodies(cad):
-            cb = cad.bodies.get("cadence::builder::MetricFormatter::<'a>::" + kind.lower())
-            if cb is None:
-                rep.anchor_lost('R4', 'MetricFormatter::%s' % kind.lower())
-                continue
-            ib = inl(cad, cb)
-            rts = ret_terms(Terms(ib), [0])
-            ok = False
-            if len(rts) == 1 and list(rts)[0][0] == 'adt':
-                fs = dict(list(rts)[0][3])
-                tv = fs.get(fm.roles['type'])
-                ok = tv is not None and tv[0] == 'adt' and tv[2] == kind and peel(fs.get(fm.roles['prefix'])) == ('param', 1) and \
-                    peel(fs.get(fm.roles['key'])) == ('param', 2) and fs.get(fm.roles['val']) == ('param', 3)
-            rep.ob('R4', 'formatter-ctor/%s' % kind, ok, cb.where(), 'MetricFormatter::%s(p,k,v) has type %s and stores p,k,v' % (kind.lower(), kind) if ok else 'constructor %s does not produce a %s formatter of its arguments' % (kind.lower(), kind))
+    fm._tag_callees, fm._cid_callees, fm._tag_args = tag_callees, cid_callees, tag_args
 
 
 def rule_tag_plumbing(fm, rep, rid='R2'):
@@ -418,7 +467,7 @@ def rule_tag_plumbing(fm, rep, rid='R2'):
         T = Terms(b)
         if shape == 'cid':
             rts = ret_terms(T, [0])
-            v = _field_value(list(rts)[0], 'container_id') if len(rts) == 1 else None
+            v = _field_value(list(rts)[0], client_field(cad, 'container_id', SCB)) if len(rts) == 1 else None
             ok = v is not None and v[0] == 'adt' and v[2] == 'Some' and term_callee_is(dict(v[3])['0'], 'as alloc::string::ToString>::to_string') \
                 and peel(dict(v[3])['0'][2][0]) == ('param', 2)
             rep.ob(rid, 'builder/with_container_id', ok, b.where(), 'container_id = Some(id.to_string())' if ok else 'stores %s' % (fmt(v) if v else '?'))
@@ -428,7 +477,7 @@ def rule_tag_plumbing(fm, rep, rid='R2'):
         if ok:
             ct = norm(T.call_term(pushes[0]))
             item = ct[2][1]
-            ok = self_field_name(strip_mut(ct[2][0])) == 'tags' and item[0] == 'tuple'
+            ok = self_field_name(strip_mut(ct[2][0])) == client_field(cad, 'tags', SCB) and item[0] == 'tuple'
             if ok:
                 k, v = item[1]
 
@@ -439,8 +488,9 @@ def rule_tag_plumbing(fm, rep, rid='R2'):
                 else:
                     ok = k[0] == 'adt' and k[2] == 'None' and ts(v, 2)
         rep.ob(rid, 'builder/%s-appends' % meth, ok, b.where(), 'default tag appended at the end of the list' if ok else 'builder %s does not push exactly its arguments' % meth)
-    rule_builder_frame(cad, rep, SCB, {'with_tag': ('tags', None), 'with_tag_value': ('tags', None), 'with_container_id': ('container_id', None),
-                                       'with_error_handler': ('errors', None)}, rid=rid)
+    rule_builder_frame(cad, rep, SCB, {'with_tag': (client_field(cad, 'tags', SCB), None), 'with_tag_value': (client_field(cad, 'tags', SCB), None),
+                                       'with_container_id': (client_field(cad, 'container_id', SCB), None),
+                                       'with_error_handler': (client_field(cad, 'errors', SCB), None)}, rid=rid)
     # from_builder moves everything unchanged
     b = one(rep, rid, 'StatsdClient::from_builder', cad.method(SC, 'from_builder'))
     if b is not None:
@@ -450,9 +500,13 @@ def rule_tag_plumbing(fm, rep, rid='R2'):
         msg = ''
         if len(rts) == 1 and list(rts)[0][0] == 'adt':
             fs = dict(list(rts)[0][3])
-            badf = [n for n, v in fs.items() if deep_peel(v) != ('field', ('param', 1), n)]
+            badf = []
+            for role in ('prefix', 'sink', 'errors', 'tags', 'container_id'):
+                cf, bf = client_field(cad, role), client_field(cad, role, SCB)
+                if cf is None or bf is None or deep_peel(fs.get(cf, ('x',))) != ('field', ('param', 1), bf):
+                    badf.append(cf or role)
             ok = not badf
-            msg = 'fields not moved unchanged from the builder: %s' % [(n, fmt(fs[n])[:80]) for n in badf]
+            msg = 'fields not moved unchanged from the builder: %s' % [(n, fmt(fs.get(n, ('?',)))[:80]) for n in badf]
         rep.ob(rid, 'from_builder-moves-config-unchanged', ok, b.where(), 'prefix, sink, errors, tags, container_id are moved as configured' if ok else msg)
     nb = one(rep, 'R5', 'StatsdClientBuilder::new', cad.method(SCB, 'new'))
     if nb is not None:
@@ -460,110 +514,224 @@ def rule_tag_plumbing(fm, rep, rid='R2'):
         ok = False
         if len(rts) == 1 and list(rts)[0][0] == 'adt':
             fs = dict(list(rts)[0][3])
-            ok = term_callee_is(fs.get('tags', ('x',)), 'alloc::vec::Vec::new') and fs.get('container_id', ('x',))[0] == 'adt' and fs['container_id'][2] == 'None'
-            okp = term_callee_is(fs.get('prefix', ('x',)), 'cadence::client::StatsdClientBuilder::formatted_prefix') and peel(fs['prefix'][2][0]) == ('param', 1)
+            ftags, fcid, fpre = (client_field(cad, r_, SCB) for r_ in ('tags', 'container_id', 'prefix'))
+            ok = term_callee_is(fs.get(ftags, ('x',)), 'alloc::vec::Vec::new') and fs.get(fcid, ('x',))[0] == 'adt' and fs[fcid][2] == 'None'
+            okp = term_callee_is(fs.get(fpre, ('x',)), 'cadence::client::StatsdClientBuilder::formatted_prefix') and peel(fs[fpre][2][0]) == ('param', 1)
             rep.ob('R6', 'prefix-normalised-once', okp, nb.where(), 'builder.prefix = formatted_prefix(prefix argument)')
         rep.ob('R5', 'no-defaults-by-default', ok, nb.where(), 'a new builder has no default tags and no container id')
-    # StatsdClient::tags : forward map over self.tags
-    tb = one(rep, rid, 'StatsdClient::tags', cad.method(SC, 'tags'))
-    if tb is not None:
-        rep.analysed(tb)
-        rts = ret_terms(Terms(tb), [0])
-        ok = False
-        if len(rts) == 1:
-            r = list(rts)[0]
-            if term_callee_is(r, 'as core::iter::traits::iterator::Iterator>::map') and term_callee_is(r[2][0], 'core::slice::iter', 'alloc::vec::Vec::iter'):
-                ok = self_field_name(r[2][0][2][0]) == 'tags'
-        rep.ob(rid, 'client-tags-forward-iteration', ok, tb.where(), 'self.tags.iter().map(..): configured order' if ok else 'default tags are not visited by a plain forward iter().map()')
-        cl = cad.closures_of(tb.path)
-        if len(cl) == 1:
-            rts = ret_terms(Terms(cl[0]), [0])
-            okc = False
-            if len(rts) == 1 and list(rts)[0][0] == 'tuple':
-                k, v = list(rts)[0][1]
-                okc = term_callee_is(k, 'core::option::Option::as_deref') and deep_peel(k[2][0]) == ('field', ('param', 2), 0) and \
-                    term_callee_is(v, 'alloc::string::String::as_str') and deep_peel(v[2][0]) == ('field', ('param', 2), 1)
-            rep.ob(rid, 'client-tags-item-mapping', okc, cl[0].where(), '(k, v) -> (k.as_deref(), v.as_str())')
-        else:
-            rep.anchor_lost(rid, 'closure of StatsdClient::tags')
-    # MetricBuilder::with_tags : forward loop, one with_tag / with_tag_value per item chosen by the key
-    wb = one(rep, rid, 'MetricBuilder::with_tags', cad.method(MB, 'with_tags'))
-    if wb is not None:
+    # ---- how the default tags travel from the client field into the per-call formatter (by role, not by name)
+    from .. import symb
+    if not hasattr(fm, '_tag_callees'):
+        from ..report import Report
+        rule_decoration(fm, Report('scratch'), 'R1', kinds=False)
+    # (a) the argument handed to the builder is an order-preserving view of the client's tag list
+    for b_, args in fm._tag_args[:7]:
+        okv = False
+        why = ''
+        for a in args:
+            x = norm(a)
+            # expand a local helper taking &self (e.g. StatsdClient::tags)
+            if x[0] == 'call' and isinstance(x[1], str) and len(x[2]) == 1 and peel(x[2][0]) == ('param', 1) and symb._body(x[1]) is not None:
+                x = symb.body_ret(symb._body(x[1]))
+            v, why = _forward_view_of_tags(cad, x)
+            okv = okv or v
+        rep.ob(rid, '%s/default-tags-passed-in-order' % b_.name, okv, b_.where(), 'the builder receives a forward, complete view of the client tag list' if okv else
+               'default tags are not handed over as a plain forward view of the configured list: %s' % why)
+    # (b) the receiving builder method applies every item once, in order, by its key
+    for cp in sorted(fm._tag_callees):
+        wb = symb._body(cp)
+        if wb is None:
+            rep.anchor_lost(rid, 'body of %s' % cp)
+            continue
         rep.analysed(wb)
-        T = Terms(wb)
-        nx = [bi for bi, t in wb.calls() if callee_is(t, 'as core::iter::traits::iterator::Iterator>::next') and not wb.blocks[bi]['cleanup']]
-        wt = [bi for bi, t in wb.calls() if callee_is(t, 'cadence::builder::MetricFormatter::with_tag') and not wb.blocks[bi]['cleanup']]
-        wv = [bi for bi, t in wb.calls() if callee_is(t, 'cadence::builder::MetricFormatter::with_tag_value') and not wb.blocks[bi]['cleanup']]
-        ok = len(nx) == 1 and len(wt) == 1 and len(wv) == 1
+        ib = inl(cad, wb, never=lambda x: x.impl_self and type_head(x.impl_self) == fm.F)
+        T = Terms(ib)
+        nx = [bi for bi, t in ib.calls() if callee_is(t, 'as core::iter::traits::iterator::Iterator>::next') and not ib.blocks[bi]['cleanup']]
+        kv, vo = [], []
+        for bi, t in ib.calls():
+            if ib.blocks[bi]['cleanup'] or not t.get('resolved_local'):
+                continue
+            role = _formatter_tag_method(cad, fm, t.get('resolved'))
+            if role == 'kv':
+                kv.append(bi)
+            elif role == 'v':
+                vo.append(bi)
+        ok = len(nx) == 1 and len(kv) == 1 and len(vo) == 1
+        why = 'expected one forward loop with one key:value and one bare-value application, found next=%d kv=%d v=%d' % (len(nx), len(kv), len(vo))
         if ok:
             nct = norm(T.call_term(nx[0]))
-            src = strip_mut(nct[2][0])
-            while src[0] == 'call' and src[1].endswith('IntoIterator>::into_iter'):
-                src = strip_mut(src[2][0])
-            ok = src == ('param', 2)
+            from .fmtout import iter_source
+            src, enum = iter_source(nct[2][0])
+            src = strip_views(src)
+            ok = src == ('param', 2) and not enum
+            why = 'the loop iterates %s' % fmt(src)[:80]
             item = field_of(('payload', nct, 'Some'), '0', 0)
-            t1 = norm(T.call_term(wt[0]))
-            t2 = norm(T.call_term(wv[0]))
-            kterm = field_of(('payload', ('field', item, 0), 'Some'), '0', 0)
-            ok = ok and peel(t1[2][1]) == kterm and peel(t1[2][2]) == ('field', item, 1) and peel(t2[2][1]) == ('field', item, 1)
-            # between two next() calls exactly one of the two
-            for a in (wt[0], wv[0]):
-                again = any(x in reach(wb, wb.succs(a, False), stop=lambda q: q == nx[0]) for x in (wt[0], wv[0]))
-                ok = ok and not again
-            g1 = guards_of(T, wt[0]) or []
-            ok = ok and any(norm(dt)[0] == 'discr' and ('variant', 'Some') in labels for dt, labels, _ in g1)
-            g0 = guards_of(T, wt[0]) or []
-            ok = ok and any(norm(dt)[0] == 'discr' and ('variant', 'Success') in labels for dt, labels, _ in g0)
-        rep.ob(rid, 'with_tags-applies-each-default-in-order', ok, wb.where(), 'for tag in tags (forward): Some(k) -> with_tag(k, v), None -> with_tag_value(v)' if ok else 'with_tags does not apply every item once, in order, by its key')
-    # formatter append
-    for meth, shape in (('with_tag', 'kv'), ('with_tag_value', 'v')):
-        b = cad.bodies.get("cadence::builder::MetricFormatter::<'a>::" + meth)
-        if b is None:
-            rep.anchor_lost(rid, 'MetricFormatter::%s' % meth)
+            if ok:
+                t1 = norm(T.call_term(kv[0]))
+                t2 = norm(T.call_term(vo[0]))
+
+                def comp(x, idx):
+                    """x is a view of component idx of the loop item"""
+                    y = strip_views(x)
+                    pth = []
+                    while y != nct:
+                        if y[0] == 'field':
+                            pth.append(y[2])
+                            y = strip_views(y[1])
+                        elif y[0] == 'payload':
+                            pth.append(('v', y[2]))
+                            y = strip_views(y[1])
+                        else:
+                            return False
+                    pth = list(reversed(pth))
+                    return pth[:2] == [('v', 'Some'), '0'] and idx in pth[2:3] and all(q in (0, 1, '0', ('v', 'Some')) for q in pth)
+                ok = comp(t1[2][1], 0) and comp(t1[2][2], 1) and comp(t2[2][1], 1)
+                why = 'tag key/value do not come from the current item: %s / %s' % (fmt(t1[2][1])[:60], fmt(t1[2][2])[:60])
+            if ok:
+                for a in (kv[0], vo[0]):
+                    again = any(x in reach(ib, ib.succs(a, False), stop=lambda q: q == nx[0]) for x in (kv[0], vo[0]))
+                    ok = ok and not again
+                oe = outcome_edges(T, nx[0])
+                some_t = [s for (bb, s), v in oe.items() if v == 'ok']
+                ok = ok and bool(some_t) and all(C.must_pass(ib, s, set(C.exits(ib, False)) | {nx[0]}, {kv[0], vo[0]}) for s in some_t)
+                why = 'an item can be skipped or applied twice'
+            if ok:
+                g1 = guards_of(T, kv[0]) or []
+                ok = any(norm(dt)[0] == 'discr' and ('variant', 'Some') in labels for dt, labels, _ in g1) and \
+                    any(norm(dt)[0] == 'discr' and ('variant', 'Success') in labels for dt, labels, _ in g1)
+                why = 'key:value application is not selected by the key being Some (on the Success state)'
+        rep.ob(rid, 'default-tags-applied-each-once-in-order', ok, wb.where(), 'for item in tags (forward): Some(k) -> key:value tag, None -> bare tag' if ok else
+               '%s does not apply every default tag once, in order, by its key: %s' % (cp.rsplit('::', 1)[-1], why))
+    # (c) formatter methods append
+    n_app = 0
+    for x in cad.all_bodies:
+        role = _formatter_tag_method(cad, fm, x.path)
+        if role is None:
             continue
-        T = Terms(b)
-        pushes = [bi for bi, t in b.calls() if callee_is(t, 'alloc::vec::Vec::push') and not b.blocks[bi]['cleanup']]
-        ins = [bi for bi, t in b.calls() if callee_is(t, 'alloc::vec::Vec::insert', 'alloc::vec::Vec::push_front')]
-        ok = len(pushes) == 1 and not ins and count_events(b, lambda x: x in pushes) == {1}
+        n_app += 1
+        T = Terms(x)
+        pushes = [bi for bi, t in x.calls() if callee_is(t, 'alloc::vec::Vec::push') and not x.blocks[bi]['cleanup']]
+        ins = [bi for bi, t in x.calls() if callee_is(t, 'alloc::vec::Vec::insert', 'alloc::vec::Vec::push_front', 'alloc::vec::Vec::swap', 'alloc::vec::Vec::sort_by_key',
+                                                      'alloc::vec::Vec::dedup_by', 'alloc::vec::Vec::retain', 'alloc::vec::Vec::clear', 'alloc::vec::Vec::truncate')]
+        ok = len(pushes) == 1 and not ins and count_events(x, lambda q: q in pushes) == {1}
         if ok:
             ct = norm(T.call_term(pushes[0]))
             k, v = ct[2][1][1]
-            if shape == 'kv':
+            if role == 'kv':
                 ok = k[0] == 'adt' and k[2] == 'Some' and peel(dict(k[3])['0']) == ('param', 2) and peel(v) == ('param', 3)
             else:
                 ok = k[0] == 'adt' and k[2] == 'None' and peel(v) == ('param', 2)
-            ok = ok and self_field_name(ct[2][0]) == fm.roles['tags']
-        rep.ob(rid, 'formatter/%s-appends' % meth, ok, b.where(), 'tags.push(..): call order is line order')
+        rep.ob(rid, 'formatter/%s-appends' % x.name, ok, x.where(), 'tags.push(..): call order is line order')
+    rep.floor(rid, 'formatter tag appenders', n_app, 2)
+
+
+_FTM = {}
+
+
+def _formatter_tag_method(cad, fm, path):
+    """'kv' / 'v' if `path` is a formatter method whose effect is one push of (Some(..), ..) / (None, ..) to the tag list"""
+    if path is None:
+        return None
+    key = (id(cad), path)
+    if key in _FTM:
+        return _FTM[key]
+    r = None
+    b = cad.bodies.get(path)
+    if b is not None and b.impl_self and type_head(b.impl_self) == fm.F and b.impl_trait is None:
+        T = Terms(b)
+        for bi, t in b.calls():
+            if callee_is(t, 'alloc::vec::Vec::push') and not b.blocks[bi]['cleanup']:
+                ct = norm(T.call_term(bi))
+                if self_field_name(ct[2][0]) == fm.roles.get('tags') and ct[2][1][0] == 'tuple':
+                    k = ct[2][1][1][0]
+                    if k[0] == 'adt' and k[2] == 'Some':
+                        r = 'kv'
+                    elif k[0] == 'adt' and k[2] == 'None':
+                        r = 'v'
+    _FTM[key] = r
+    return r
+
+
+def _forward_view_of_tags(cad, x):
+    """x is &self.tags / self.tags.iter() / self.tags.iter().map(|(k, v)| (k.as_deref(), v.as_str())) ..."""
+    from .. import symb
+    fld = client_field(cad, 'tags')
+    y = x
+    for _ in range(8):
+        y = peel(y)
+        if y[0] == 'field' and y[2] == fld and peel(y[1]) == ('param', 1):
+            return True, ''
+        if y[0] == 'load':
+            y = y[1]
+            continue
+        if y[0] == 'call' and isinstance(y[1], str):
+            nm = y[1]
+            if nm.endswith('Iterator>::map') and len(y[2]) == 2:
+                clo = y[2][1]
+                if clo[0] != 'closure':
+                    return False, 'map over a non-literal function'
+                r = symb.apply(clo, (('item',),))
+                okc = r[0] == 'tuple' and len(r[1]) == 2
+                if okc:
+                    k, v = r[1]
+                    okc = deep_peel(strip_views(k)) == ('field', ('item',), 0) and deep_peel(strip_views(v)) == ('field', ('item',), 1)
+                if not okc:
+                    return False, 'the mapping closure does not return (view of key, view of value): %s' % fmt(r)[:80]
+                y = y[2][0]
+                continue
+            if len(y[2]) == 1 and any(nm.endswith(s) for s in VIEW_CALLS):
+                y = y[2][0]
+                continue
+            return False, 'tags pass through %s' % nm
+        return False, 'argument is %s' % fmt(y)[:80]
+    return False, 'too deep'
 
 
 def rule_container_override(fm, rep, rid='R3'):
+    """A per-call container id replaces the default: the public setter stores unconditionally (last wins, checked by
+    R9/setter) and the method the client uses for its default stores only when a default exists."""
+    from .. import symb
     cad = fm.cad
     if not fm.need_roles(rep, ('cid',)):
         return
-    b = cad.bodies.get("cadence::builder::MetricFormatter::<'a>::with_container_id")
-    if b is None:
-        rep.anchor_lost(rid, 'MetricFormatter::with_container_id')
-        return
-    rep.analysed(b)
-    T = Terms(b)
-    sts = [(st[1], st[2], st[3], norm(T.store_value(st))) for st in T.stores() if st[0] == 's']
-    calls = [bi for bi, t in b.calls() if not b.blocks[bi]['cleanup']]
-    sw = [bi for bi, blk in enumerate(b.blocks) if blk['term']['k'] == 'switch']
-    ok = len(sts) == 1 and not calls and not sw and sts[0][2][0] == 'field' and sts[0][2][2] == fm.roles['cid'] and \
-        sts[0][3][0] == 'adt' and sts[0][3][2] == 'Some' and peel(dict(sts[0][3][3])['0']) == ('param', 2)
-    rep.ob(rid, 'container-id-last-wins', ok, b.where(), 'with_container_id is an unconditional store of Some(id): a per-call id replaces the default' if ok else
-           'MetricFormatter::with_container_id is not an unconditional overwrite (a per-call id may not replace the client default)')
-    ob = one(rep, rid, 'MetricBuilder::with_container_id_opt', cad.method(MB, 'with_container_id_opt'))
-    if ob is not None:
+    if not hasattr(fm, '_cid_callees'):
+        from ..report import Report
+        rule_decoration(fm, Report('scratch'), 'R1', kinds=False)
+    # public per-call setter: unconditional overwrite
+    pb = one(rep, rid, 'MetricBuilder::with_container_id', cad.method(MB, 'with_container_id'))
+    if pb is not None:
+        rep.analysed(pb)
+        ib = inl(cad, pb)
+        T = Terms(ib)
+        sts = [(st[1], st[2], st[3], norm(T.store_value(st))) for st in T.stores() if st[0] == 's' and st[3][0] == 'field' and st[3][2] == fm.roles['cid']]
+        cond_calls = [bi for bi, t in ib.calls() if not ib.blocks[bi]['cleanup'] and any(k in t.get('callee', '') for k in ('get_or_insert', 'Option::or', 'is_none', 'is_some', 'Option::xor', 'Option::replace', 'Option::take'))]
+        ok = len(sts) == 1 and not cond_calls and sts[0][3][0] == 'adt' and sts[0][3][2] == 'Some' and peel(dict(sts[0][3][3])['0']) == ('param', 2)
+        if ok:
+            # guarded only by the Success state, not by the old value
+            for dt, labels, sbi in guards_of(T, sts[0][0]) or []:
+                d = norm(dt)
+                if d[0] == 'discr' and any(y[0] == 'field' and y[2] == fm.roles['cid'] for y in walk(d)):
+                    ok = False
+        rep.ob(rid, 'container-id-last-wins', ok, pb.where(), 'with_container_id is an unconditional store of Some(id): a per-call id replaces the default' if ok else
+               'with_container_id is not an unconditional overwrite (a per-call id may not replace the client default)')
+    for cp in sorted(fm._cid_callees):
+        ob = symb._body(cp)
+        if ob is None:
+            rep.anchor_lost(rid, 'body of %s' % cp)
+            continue
+        rep.analysed(ob)
         ib = inl(cad, ob)
         T2 = Terms(ib)
         sts = [(st[1], st[2], st[3], norm(T2.store_value(st))) for st in T2.stores() if st[0] == 's' and st[3][0] == 'field' and st[3][2] == fm.roles['cid']]
         ok = len(sts) == 1
         if ok:
             gs = guards_of(T2, sts[0][0]) or []
-            ok = any(norm(dt)[0] == 'discr' and norm(dt)[1] == ('param', 2) and ('variant', 'Some') in labels for dt, labels, _ in gs) and \
-                peel(dict(sts[0][3][3])['0']) == field_of(('payload', ('param', 2), 'Some'), '0', 0)
-        rep.ob(rid, 'default-container-id-only-when-configured', ok, ob.where(), 'with_container_id_opt(Some(id)) sets id, None leaves the formatter alone')
+            ok = any(norm(dt)[0] == 'discr' and strip_views(norm(dt)[1]) == ('param', 2) and ('variant', 'Some') in labels for dt, labels, _ in gs)
+            v = sts[0][3]
+            pay = dict(v[3])['0'] if v[0] == 'adt' and v[2] == 'Some' else None
+            ok = ok and pay is not None and strip_views(pay) == field_of(('payload', ('param', 2), 'Some'), '0', 0)
+        rep.ob(rid, 'default-container-id-only-when-configured', ok, ob.where(), '%s(Some(id)) sets id, None leaves the formatter alone' % cp.rsplit('::', 1)[-1] if ok else
+               '%s does not set the container id exactly when a default is configured' % cp.rsplit('::', 1)[-1])
 
 
 def rule_incr_decr(fm, rep, rid='R4'):
